@@ -26,6 +26,8 @@ def streams(rng, tier, ctx):
             it.op("=== gen%d" % i)
             if i % 4 == 3:
                 sim = c01.long_lead_scenario(r, it)
+            elif i % 8 == 2:
+                sim = H.big_packet_scenario(r, it, modes=(3,))
             elif i % 8 == 6:
                 # a Reliable packet that has its sequence id but cannot be sent: the (small) frame window is full of frames that
                 # carried only Unreliable data and were all swallowed by a blackout; the sync timer fires during the blackout and
